@@ -187,6 +187,11 @@ class Builder:
         if d in self.env:
           sub = self.env[d]
           return sub if isinstance(sub, Rat) else self.rat(sub)
+        root, _, rest = d.partition('.')
+        if root in self.env and isinstance(self.env[root], (ast.Name, ast.Attribute)):
+          nd = dotted(self.env[root])
+          if nd is not None:
+            d = nd + '.' + rest
         return Rat(Poly.atom(self.attr_alias.get(d, d)))
       return Rat(Poly.atom(self.text(node)))
     if isinstance(node, ast.UnaryOp):
@@ -259,6 +264,12 @@ class Builder:
       r = self.rat(node)
       return repr(r)
     return self.text(node)
+
+  def rename(self, mapping):
+    """Add name -> Name substitutions (role names -> canonical names)."""
+    for k, v in mapping.items():
+      self.env[k] = ast.Name(id=v, ctx=ast.Load())
+    return self
 
 
 def rat(node, env=None, **kw):
